@@ -20,8 +20,34 @@ pub fn check(property: &str) -> Option<CheckDef> {
                 "reference digests come from the same build running alone; only agreement is required, no golden bytes",
             ],
         }),
+        "C18" => Some(CheckDef {
+            property: "C18",
+            level: "fault_enumeration",
+            parts: vec![
+                part(Box::new(Erased(engines::ift::IftFaultFree)), 20_000, 1_000_000, "C02", 60),
+                part(Box::new(Erased(engines::ift::IftFaulty)), 20_000, 1_000_000, "C02", 60),
+                part(Box::new(Erased(engines::ift::IftDecoderEnum)), 3_000, 150_000, "C02", 120),
+            ],
+            assumptions: vec![
+                "the reference model and the IFT encoder are written from the specification and the table layouts, calibrated once against the unchanged tree",
+                "patches carry brotli streams made of uncompressed meta-blocks, decoded by the real C decoder; dictionary-dependent diffs are therefore not exercised",
+                "carriers: glyf/loca short and long, gvar short and long; CFF/CFF2 carriers are not generated",
+            ],
+        }),
+        "C19" => Some(CheckDef {
+            property: "C19",
+            level: "exploration",
+            parts: vec![
+                part(Box::new(Erased(engines::ift::IftFaultFree)), 20_000, 1_000_000, "C02", 60),
+                part(Box::new(Erased(engines::ift::IftFaulty)), 20_000, 1_000_000, "C02", 60),
+            ],
+            assumptions: vec![
+                "intersection and grouping rules are modelled from the property statement and the specification's algorithms; child entries are evaluated regardless of their own ignored flag (calibrated against the unchanged tree)",
+                "liveness is bounded progress: every Ok round applies a new URI; fixpoint within (#distinct URIs + #definitions + 2) rounds after the last fault",
+            ],
+        }),
         _ => None,
     }
 }
 
-pub const ALL: &[&str] = &["C07"];
+pub const ALL: &[&str] = &["C07", "C18", "C19"];
